@@ -97,7 +97,7 @@ def call(op: str, a: dict) -> dict:
             S2 = S.symmetrize(g, ver) if ver else S.symmetrize(g)
             Xt = ttb.tensor(X.data.astype(float) * 0.1 + 0.3)
             St = Xt.symmetrize(g, ver) if ver else Xt.symmetrize(g)
-            return {"st": "ok", "scaled": bind.a_dense(scaled), "passes": bool(S.issymmetric(g)),
+            return {"st": "ok", "scaled": bind.a_dense(scaled), "passes": bool(S.issymmetric(g)) and bool(St.issymmetric(g)),   # also for data that is not integer-valued
                     "keeps_exactly": bool(np.array_equal(St.data, Xt.data)),
                     "idempotent": bool(np.allclose(S2.data, S.data, atol=1e-12)),
                     "independent": bool(not np.shares_memory(S.data, X.data) and not np.shares_memory(S2.data, S.data))}
